@@ -69,6 +69,28 @@ func getDispatcher(c *Ctx, rule string) *dispatcherFacts {
 	return d
 }
 
+// caseRecognises: a case of a type switch picks out packets of the named type — it names the type itself, or an
+// interface of the module that the type implements and the `other` type does not (a marker interface that groups the
+// packet types the dispatcher treats alike).
+func caseRecognises(p *Program, asserted types.Type, name, other string) bool {
+	if isPtrToNamed(asserted, name) {
+		return true
+	}
+	it, ok := asserted.Underlying().(*types.Interface)
+	if !ok {
+		return false
+	}
+	n := namedOf(asserted)
+	if n == nil || n.Obj().Pkg() == nil || n.Obj().Pkg().Path() != pkgSftp {
+		return false
+	}
+	t, o := p.NamedType(p.Sftp, name), p.NamedType(p.Sftp, other)
+	if t == nil || o == nil {
+		return false
+	}
+	return types.Implements(types.NewPointer(t), it) && !types.Implements(types.NewPointer(o), it)
+}
+
 func isPtrToNamed(t types.Type, name string) bool {
 	p, ok := t.(*types.Pointer)
 	if !ok {
@@ -237,7 +259,7 @@ func runC14(c *Ctx) {
 		var closeCases []typeCase
 		if d.pktVal != nil {
 			for _, tc := range typeCasesOn(disp, d.pktVal) {
-				if isPtrToNamed(tc.Asserted, "sshFxpClosePacket") {
+				if caseRecognises(p, tc.Asserted, "sshFxpClosePacket", "sshFxpReadPacket") {
 					closeCases = append(closeCases, tc)
 				}
 			}
@@ -388,7 +410,7 @@ func runC14(c *Ctx) {
 		var rwBodies []*ssa.BasicBlock
 		if d.pktVal != nil {
 			for _, tc := range typeCasesOn(disp, d.pktVal) {
-				if isPtrToNamed(tc.Asserted, "sshFxpReadPacket") || isPtrToNamed(tc.Asserted, "sshFxpWritePacket") {
+				if caseRecognises(p, tc.Asserted, "sshFxpReadPacket", "sshFxpClosePacket") || caseRecognises(p, tc.Asserted, "sshFxpWritePacket", "sshFxpClosePacket") {
 					if tc.Body != nil {
 						rwBodies = append(rwBodies, tc.Body)
 					}
@@ -401,7 +423,7 @@ func runC14(c *Ctx) {
 		var otherStarts []*ssa.BasicBlock
 		if d.pktVal != nil {
 			for _, tc := range typeCasesOn(disp, d.pktVal) {
-				if tc.Body != nil && !(isPtrToNamed(tc.Asserted, "sshFxpReadPacket") || isPtrToNamed(tc.Asserted, "sshFxpWritePacket")) {
+				if tc.Body != nil && !(caseRecognises(p, tc.Asserted, "sshFxpReadPacket", "sshFxpClosePacket") || caseRecognises(p, tc.Asserted, "sshFxpWritePacket", "sshFxpClosePacket")) {
 					otherStarts = append(otherStarts, tc.Body)
 				}
 			}
